@@ -217,38 +217,22 @@ fn run(c: &Case, reorder: bool, split: Option<&[u8]>, with_others: bool, out: &m
         // is valid (each holder gives away at most 4 x 25% ... capped below)
         if with_others {
             let start: Vec<u128> = (0..n).map(|i| bal(&w, BSEI, &format!("other{}", i))).collect();
+            // admission is decided in the scenario's own order (each holder gives away at most its window-start
+            // balance), so that the admitted set is the same whatever order it is executed in
             let mut spent = vec![0u128; n];
-            let mut ops: Vec<&OtherOp> = round.others.iter().collect();
-            if reorder {
-                // deterministic permutation from the seed
-                let mut s = c.perm ^ (ri as u64).wrapping_mul(0x9E3779B97F4A7C15);
-                for k in (1..ops.len()).rev() {
-                    s = s.wrapping_mul(6364136223846793005).wrapping_add(1442695040888963407);
-                    ops.swap(k, (s >> 33) as usize % (k + 1));
-                }
-            }
-            // pre-compute amounts from window-start balances (order independent)
-            for op in ops {
+            let mut admitted: Vec<(&OtherOp, u128)> = vec![];
+            for op in round.others.iter() {
                 match op {
-                    OtherOp::Bond { i, amount } => {
-                        let _ = bond(&mut w, &other(*i, n), amount.u128());
-                    }
+                    OtherOp::Bond { .. } | OtherOp::Claim { .. } => admitted.push((op, 0)),
                     OtherOp::Transfer { i, j, share } => {
                         let ii = (*i as usize) % n;
                         let a = start[ii] * (*share as u128) / 100;
-                        if a == 0 || spent[ii] + a > start[ii] {
+                        let to_self = (*j as usize) < n && (*j as usize) == ii;
+                        if a == 0 || to_self || spent[ii] + a > start[ii] {
                             continue;
                         }
                         spent[ii] += a;
-                        let to = if (*j as usize) < n { format!("other{}", j) } else { format!("fresh{}", j) };
-                        if to == format!("other{}", ii) {
-                            continue;
-                        }
-                        let r = w.tx(&format!("other{}", ii), BSEI, &Cw20ExecuteMsg::Transfer { recipient: to, amount: Uint128::new(a) }, &[]);
-                        if let Err(e) = r {
-                            out.fail(v("scenario-op-failed", format!("transfer by other{} of {} failed: {}", ii, a, e)));
-                            return None;
-                        }
+                        admitted.push((op, a));
                     }
                     OtherOp::Unbond { i, share } => {
                         let ii = (*i as usize) % n;
@@ -257,6 +241,34 @@ fn run(c: &Case, reorder: bool, split: Option<&[u8]>, with_others: bool, out: &m
                             continue;
                         }
                         spent[ii] += a;
+                        admitted.push((op, a));
+                    }
+                }
+            }
+            if reorder {
+                // deterministic permutation from the seed
+                let mut s = c.perm ^ (ri as u64).wrapping_mul(0x9E3779B97F4A7C15);
+                for k in (1..admitted.len()).rev() {
+                    s = s.wrapping_mul(6364136223846793005).wrapping_add(1442695040888963407);
+                    admitted.swap(k, (s >> 33) as usize % (k + 1));
+                }
+            }
+            for (op, a) in admitted {
+                match op {
+                    OtherOp::Bond { i, amount } => {
+                        let _ = bond(&mut w, &other(*i, n), amount.u128());
+                    }
+                    OtherOp::Transfer { i, j, .. } => {
+                        let ii = (*i as usize) % n;
+                        let to = if (*j as usize) < n { format!("other{}", j) } else { format!("fresh{}", j) };
+                        let r = w.tx(&format!("other{}", ii), BSEI, &Cw20ExecuteMsg::Transfer { recipient: to, amount: Uint128::new(a) }, &[]);
+                        if let Err(e) = r {
+                            out.fail(v("scenario-op-failed", format!("transfer by other{} of {} failed: {}", ii, a, e)));
+                            return None;
+                        }
+                    }
+                    OtherOp::Unbond { i, .. } => {
+                        let ii = (*i as usize) % n;
                         let r = w.tx(&format!("other{}", ii), BSEI, &Cw20ExecuteMsg::Send { contract: HUB.into(), amount: Uint128::new(a), msg: hook_msg(false) }, &[]);
                         if let Err(e) = r {
                             out.fail(v("scenario-op-failed", format!("unbond by other{} of {} failed: {}", ii, a, e)));
